@@ -63,15 +63,17 @@ Fixpoint select_zero (bitmap : list bool) (refs : list backref) : list backref :
   | _, _ => []
   end.
 
+(* the back references in force: kept once built, otherwise collected now *)
+Definition get_backrefs (r : regs) (dd : list ddesc) (nbits : nat) : result (list backref) :=
+  match r_backrefs r with
+  | Some ((_ :: _) as l) => Ok l
+  | _ => if (N.of_nat (length dd) <? r_boundary r)%N then Err EIndex
+         else Ok (collect_backrefs (r_boundary r) nbits dd)
+  end.
+
 (* CoderState.build_bitmapped_descriptors; [bitmap] holds the "bit == 0" flags *)
 Definition build_bitmapped (bitmap : list bool) (s : st) : result st :=
-  let r := w_r s in
-  let* refs :=
-    (match r_backrefs r with
-     | Some ((_ :: _) as l) => Ok l
-     | _ => if (N.of_nat (length (io_dd (w_c s))) <? r_boundary r)%N then Err EIndex
-            else Ok (collect_backrefs (r_boundary r) (length bitmap) (io_dd (w_c s)))
-     end) in
+  let* refs := get_backrefs (w_r s) (io_dd (w_c s)) (length bitmap) in
   let s1 := upd_r (set_backrefs (Some refs)) s in
   if negb (length refs =? length bitmap)%nat then Err ELib
   else
